@@ -31,8 +31,9 @@
 (*                     at a gate and nothing happened for a long time      *)
 (*   return n h x      executeQuery returned; n = identity of the attempt   *)
 (*                     whose *Iter is returned (0: an Iter made by the     *)
-(*                     executor), h = identity of the attempt whose error   *)
-(*                     OBJECT it carries (0: none / a sentinel), x = class *)
+(*                     executor, -1: not observable), h = identity of the  *)
+(*                     attempt whose error OBJECT it carries (0: none / a  *)
+(*                     sentinel), x = class                                *)
 (*                                                                         *)
 (* Scenario record c: hosts (sequence of "ok" | "down" | "nopool" |        *)
 (* "noconn"), pol = [kind, n, allow], k (speculative attempts), idem.      *)
@@ -92,7 +93,7 @@ Allowed(c, nexecs) == PolBmax(c.pol) + nexecs
 MonX0 == [natt |-> 0, prevh |-> 0, ord |-> 0, out |-> "none", lerr |-> 0, lerrx |-> "none",
           alw |-> "none", dec |-> "none", cand |-> -1, skipped |-> FALSE,
           comp |-> FALSE, ratt |-> 0, reord |-> 0, rx |-> "none"]
-MonInit == [sent |-> 0, execs |-> {}, cancelled |-> FALSE, ret |-> FALSE, q |-> {}, viol |-> {},
+MonInit == [sent |-> 0, ends |-> 0, execs |-> {}, cancelled |-> FALSE, ret |-> FALSE, q |-> {}, viol |-> {},
             x |-> [e \in E |-> MonX0]]
 
 \* a new execution shows up
@@ -132,13 +133,15 @@ ReturnKeys(m, n, h, x, c) ==
       \* "the first to complete": when the harness saw the system quiescent with completed
       \* executions, the result must be one of theirs
       cands == IF m.q # {} THEN m.q ELSE done
-      Match(e) == m.x[e].ratt = n /\ m.x[e].reord = h /\ m.x[e].rx = x
+      \* n = -1: the observer could not see which *Iter came back (end-to-end level)
+      SameIter(e) == n = -1 \/ m.x[e].ratt = n
+      Match(e) == SameIter(e) /\ m.x[e].reord = h /\ m.x[e].rx = x
       \* the caller's context ended: executeQuery may answer with the context's error itself
-      ctxret == m.cancelled /\ n = 0 /\ h = 0 /\ x = "canceled" IN
+      ctxret == m.cancelled /\ n \in {0, -1} /\ h = 0 /\ x = "canceled" IN
   (IF m.ret THEN {"multiple-results"} ELSE {})
   \cup (IF ctxret \/ \E e \in cands : Match(e) THEN {}
         \* right Iter (or both made by the executor) but not the last attempt's error
-        ELSE IF \E e \in cands : m.x[e].ratt = n THEN {"last-error-swallowed"}
+        ELSE IF \E e \in cands : SameIter(e) THEN {"last-error-swallowed"}
         ELSE {"wrong-result-returned"})
 
 MonStep(m, evt, c) ==
@@ -167,12 +170,16 @@ MonStep(m, evt, c) ==
                              \* a query not marked idempotent is complete after its only attempt
                              !.comp = (~IsErr(o) \/ c.pol.kind = "none" \/ ~c.idem),
                              !.ratt = r.ord, !.reord = IF IsErr(o) THEN r.ord ELSE 0, !.rx = o] IN
-         AddExec(SetX(m, r1), {})
+         AddExec([SetX(m, r1) EXCEPT !.ends = m.ends + 1], {})
     [] evt.ev = "allow" ->
          LET r1 == [r EXCEPT !.alw = evt.x, !.comp = (evt.x = "no" \/ ~c.idem)]
              \* the documented budget policies: NumRetries = number of times to retry
-             keys == IF c.pol.kind = "budget" /\ ((evt.x = "yes") # (evt.n <= c.pol.n))
-                     THEN {"retry-budget-miscounted"} ELSE {} IN
+             keys == (IF c.pol.kind = "budget" /\ ((evt.x = "yes") # (evt.n <= c.pol.n))
+                      THEN {"retry-budget-miscounted"} ELSE {})
+                     \* what the policy consults: Attempts() "returns the number of times the query was
+                     \* executed" (Query) / "the number of attempts made to execute the batch" (Batch);
+                     \* every finished attempt is logged atomically with the real metrics update
+                     \cup (IF evt.n # m.ends THEN {"attempts-miscounted"} ELSE {}) IN
          AddExec(SetX(m, r1), keys)
     [] evt.ev = "decide" ->
          LET stop == evt.x \in StopDecisions \/ ~c.idem
